@@ -19,6 +19,8 @@ P.trust("numpy linear algebra over the reals; molli.data element tables (group, 
         "positive radii; mean_plane (SVD) returns a unit vector (assumed); C11 contract of rotation_matrix_from_vectors")
 P.assume("centre atom with 0..3 neighbours (bounded); bond types restricted to Single/Double/Triple/Aromatic/Dummy in the count unit; "
          "non-degenerate geometry = the neighbours' centroid differs from the centre (and 2 neighbours are not collinear with it)")
+P.not_decided.append("bond length of the two hydrogens placed on a centre with 1 or 3 neighbours (nested normalisations: identity not discharged within budget)")
+P.not_decided.append("'pointing away from the centroid of the neighbours' (sign of a nonlinear expression) is checked only numerically in the replay harness")
 ST = M.CLS["Structure"]
 Z = G.Z
 TOL = 1e-3
@@ -157,16 +159,30 @@ def _geometry(V):
     # definedness: a division by zero may only happen in a degenerate geometry (centroid of the neighbours on the centre)
     n_avg = NP.sqrt_sumsq(I, [SV(x, "real") for x in avg])
     if div0:
-        V.ensure("post/undefined-only-for-degenerate-geometry", Z(n_avg) == 0 if nb != 3 else z3.BoolVal(True))
+        degenerate = [Z(n_avg) == 0]
+        if nb == 2 and hint == 2:
+            r1 = [Z(coords[1][k]) - Z(a[k]) for k in range(3)]
+            r2 = [Z(coords[2][k]) - Z(a[k]) for k in range(3)]
+            cr = [r1[1] * r2[2] - r1[2] * r2[1], r1[2] * r2[0] - r1[0] * r2[2], r1[0] * r2[1] - r1[1] * r2[0]]
+            degenerate.append(z3.And(*[c_ == 0 for c_ in cr]))          # the two neighbours are collinear with the centre
+        V.ensure("post/undefined-only-for-degenerate-geometry", z3.Or(*degenerate) if nb != 3 else z3.BoolVal(True))
         return
     newc = m.fields["_coords"].data[1 + nb:]
     V.ensure("post/hydrogen-count", z3.BoolVal(len(newc) == hint))
     if len(newc) != hint:
         return
-    k2 = 0.5736 ** 2 + 0.8192 ** 2
+    # the placement constants are decimal approximations of unit vectors: |h-a|^2 = c * L^2 exactly, with c within tolerance of 1
+    from fractions import Fraction as Fr
+    tet = I.module_global("molli.math.polyhedra", "TETRAHEDRON").data
+    consts = {1: [Fr(1)], 2: [Fr("0.5736") ** 2 + Fr("0.8192") ** 2] * 2,
+              3: [sum(Fr(repr(x)) ** 2 for x in tet[j]) for j in (1, 2, 3)]}[hint]
+    if hint == 2 and nb != 2:
+        # two hydrogens on a centre with 1 or 3 neighbours: the identity involves two nested normalisations and did not
+        # discharge within budget with sympy -> recorded as not decided (P.not_decided), covered numerically by the replay harness
+        return
     for j, hrow in enumerate(newc):
         dvec = [Z(hrow[k]) - Z(a[k]) for k in range(3)]
         d2 = sum(x * x for x in dvec)
-        factor = z3.RealVal(1) if hint != 2 else z3.RealVal(repr(k2))
-        G.eqs(f"post/bond-length-is-the-sum-of-covalent-radii/{j}", V, [(d2, factor * L * L)])
-    V.ensure("post/length-constant-within-tolerance", z3.BoolVal(abs(k2 - 1) < 2 * TOL))
+        G.eqs(f"post/bond-length-is-the-sum-of-covalent-radii/{j}", V, [(d2, z3.RealVal(str(consts[j])) * L * L)],
+              hyps=st.ghost.get("R_orth") if hint == 3 else None)
+    V.ensure("post/length-constants-within-tolerance-of-one", z3.BoolVal(all(abs(float(c) - 1) < 2 * TOL for c in consts)))
